@@ -1,7 +1,7 @@
 /-
 Lemmas for C19 (equality / hashing / clone): the zip of two pre-order traversals compared node
-by node is a prefix test on LABEL sequences; with the arity in the label (patched code) the
-prefix code lemma gives structural equality; without it (current code) thresholds leak.
+by node is a prefix test on LABEL sequences; the label of `thresh` carries k and the arity, so
+the prefix code lemma gives structural equality.
 -/
 import MsVerif.Lemmas.TreeWalk
 
@@ -22,15 +22,6 @@ def labF : Ms → Ms
   | .andOr _ _ _ => .andOr .fls .fls .fls
   | .thresh k xs => .thresh k (MsList.ofList (List.replicate xs.length .fls))
   | t => t
-
-/-- what the CURRENT `eq` sees of a node: additionally k and arity of `thresh` are erased -/
-def lab0 : Ms → Ms
-  | .thresh _ _ => .thresh 0 .nil
-  | t => labF t
-
-def isThresh : Ms → Bool
-  | .thresh _ _ => true
-  | _ => false
 
 theorem MsList.toList_inj : (xs ys : MsList) → xs.toList = ys.toList → xs = ys
   | .nil, .nil, _ => rfl
@@ -57,9 +48,9 @@ theorem idx_inj (a b : HashKind) (h : a.idx = b.idx) : a = b := by
 
 theorem idx_lt (a : HashKind) : a.idx < 4 := by cases a <;> simp [HashKind.idx]
 
-/-- the patched loop body compares exactly the labels -/
-theorem nodeDiffersFixed_iff (x y : Ms) : nodeDiffersFixed x y = false ↔ labF x = labF y := by
-  cases x <;> cases y <;> simp [nodeDiffersFixed, nodeDiffers, armGuard, Ms.disc, labF] <;>
+/-- the loop body of `eq` compares exactly the labels -/
+theorem nodeDiffers_iff (x y : Ms) : nodeDiffers x y = false ↔ labF x = labF y := by
+  cases x <;> cases y <;> simp [nodeDiffers, armGuard, Ms.disc, labF] <;>
     try (have := idx_lt ‹HashKind›; omega)
   case hash.hash k1 h1 k2 h2 =>
     by_cases hk : k1 = k2
@@ -68,19 +59,6 @@ theorem nodeDiffersFixed_iff (x y : Ms) : nodeDiffersFixed x y = false ↔ labF 
   case thresh.thresh k1 xs1 k2 xs2 =>
     rintro rfl
     exact ⟨fun h => by rw [h], ofList_replicate_inj _ _⟩
-
-/-- the current loop body compares the labels with `thresh` payloads erased -/
-theorem nodeDiffers_iff (x y : Ms) : nodeDiffers x y = false ↔ lab0 x = lab0 y := by
-  cases x <;> cases y <;> simp [nodeDiffers, armGuard, Ms.disc, lab0, labF] <;>
-    try (have := idx_lt ‹HashKind›; omega)
-  case hash.hash k1 h1 k2 h2 =>
-    by_cases hk : k1 = k2
-    · subst hk; simp
-    · simp [hk]; intro h; exact absurd (idx_inj _ _ h) hk
-
-theorem nodeDiffers_eq_fixed (x y : Ms) (h : isThresh x = false) :
-    nodeDiffers x y = nodeDiffersFixed x y := by
-  cases x <;> simp [isThresh] at h <;> cases y <;> simp [nodeDiffersFixed]
 
 /-! ### the zip -/
 
@@ -99,14 +77,6 @@ theorem eqZip_iff {L : Type} (d : Ms → Ms → Bool) (lab : Ms → L)
     · have hne : lab x ≠ lab y := fun e => h ((hd x y).2 e)
       have hne' : lab y ≠ lab x := fun e => hne e.symm
       simp [h, hne, hne']
-
-theorem eqZip_congr (d1 d2 : Ms → Ms → Bool) :
-    ∀ (la lb : List Ms), (∀ x ∈ la, ∀ y, d1 x y = d2 x y) → eqZip d1 la lb = eqZip d2 la lb
-  | [], _, _ => by simp [eqZip]
-  | _ :: _, [], _ => by simp [eqZip]
-  | x :: la, y :: lb, h => by
-    simp only [eqZip, h x (by simp) y]
-    rw [eqZip_congr d1 d2 la lb (fun a ha => h a (by simp [ha]))]
 
 /-! ### the prefix code on `Ms` -/
 
@@ -128,9 +98,10 @@ theorem pre_prefix_code (sa sb : List Ms) (hl : sa.length = sb.length)
   prefix_code (fun x => x.asNode.children) Ms.pre labF Ms.nodes Ms.pre_eq Ms.nodes_eq
     labF_arity labF_inj _ sa sb (Nat.le_refl _) hl hp
 
-theorem msEqFixed_iff (a b : Ms) : msEqFixed a b = true ↔ a = b := by
-  unfold msEqFixed
-  rw [preOrder_eq_pre, preOrder_eq_pre, eqZip_iff nodeDiffersFixed labF nodeDiffersFixed_iff]
+/-- `==` is structural identity -/
+theorem msEq_iff (a b : Ms) : msEq a b = true ↔ a = b := by
+  unfold msEq
+  rw [preOrder_eq_pre, preOrder_eq_pre, eqZip_iff nodeDiffers labF nodeDiffers_iff]
   constructor
   · rintro (h | h)
     · have := pre_prefix_code [a] [b] rfl (by simpa using h)
@@ -138,25 +109,6 @@ theorem msEqFixed_iff (a b : Ms) : msEqFixed a b = true ↔ a = b := by
     · have := pre_prefix_code [b] [a] rfl (by simpa using h)
       simpa using this.symm
   · rintro rfl; exact Or.inl (List.prefix_refl _)
-
-/-- no `thresh` node anywhere in the tree -/
-def noThresh (a : Ms) : Bool := a.pre.all (fun x => !isThresh x)
-
-theorem msEq_eq_fixed (a b : Ms) (h : noThresh a = true) : msEq a b = msEqFixed a b := by
-  unfold msEq msEqFixed
-  rw [preOrder_eq_pre, preOrder_eq_pre]
-  apply eqZip_congr
-  intro x hx y
-  apply nodeDiffers_eq_fixed
-  simp only [noThresh, List.all_eq_true] at h
-  simpa using h x hx
-
-/-- what the CURRENT `==` decides: prefix-compatibility of the label sequences in which
-`thresh` carries neither k nor its arity -/
-theorem msEq_iff (a b : Ms) : msEq a b = true ↔
-    (a.pre.map lab0 <+: b.pre.map lab0 ∨ b.pre.map lab0 <+: a.pre.map lab0) := by
-  unfold msEq
-  rw [preOrder_eq_pre, preOrder_eq_pre, eqZip_iff nodeDiffers lab0 nodeDiffers_iff]
 
 /-! ### clone -/
 
